@@ -18,6 +18,10 @@ CHECKS['C14'] = dict(engine='W-loop', level='exploration', design='5/C14',
    text='seeded search over write sequences (lengths 0..8191 through tell_object/write/printf/receive, bursts beyond the 4 KiB ring, from commands and call_outs) crossed with scripted send() results (full, partial k, EWOULDBLOCK, EINTR, EPIPE, closed windows, client close) against the real add_message/flush_message/process_io; oracle: the bytes accepted for each connection are an in-order concatenation of message prefixes, a tail is lost only when the ring was full at the end of that write or the connection had failed, no CR without its LF, ring drained after the window opens. Sampling, not proof.',
    note='send()/epoll are a model; exact byte accounting includes the driver-generated telnet negotiation and newline echo; ring capacity 4096 assumed from options.h',
    technique='deterministic simulation with fault injection (scripted send results, seeded write workloads, byte-exact stream oracle)')
+CHECKS['C13'] = dict(engine='W-loop', level='exploration', design='5/C13',
+   text='seeded search: the same logical client byte stream (text, CR LF/CR NUL, backspace/delete, IAC commands, sub-negotiations incl. oversized, bursts, hostile floods) is sent by 2-3 clients under different recv() segmentations (all at once, byte by byte, random cuts) to the real get_user_data/copy_chars/telnet_neg on telnet, ASCII and binary ports and the console; oracles: delivered command lines equal the lines of the logical item list (strict classes), are identical across segmentations (all classes but hostile), contain no negotiation bytes, input buffer indices stay in bounds, sanitizers clean. Sampling, not proof.',
+   note='recv()/epoll are a model; strict expectations exclude inputs whose result the property leaves open (empty lines, lone CR, bare LF on telnet, bytes after IAC AYT/IP/BREAK/AO)',
+   technique='deterministic simulation with fault injection (seeded recv segmentation of one logical stream, differential and model oracles)')
 PENDING = 'check not built yet (work in progress, see DESIGN.md section 10)'
 
 def main():
